@@ -86,14 +86,13 @@ example : exec { code := (emitCode false (.cat (.lit 97) (.cat (.star (.alt (.li
 open YaraModel.ReVm YaraModel.ReEmit in
 /-- `vm_sound_partial`: soundness of the bytecode VM on emitted code for regular expressions built from literals, `.`,
     the escapes \w \W \s \S \d \D, the anchors ^ $ and the word boundaries \b \B, `.{n,m}`, concatenation, alternation,
-    `*` and `+` (greedy or lazy, nested in any way) — i.e. every node kind except bracket classes `[...]`, counted repeats
+    `*` and `+` (greedy or lazy, nested in any way), bracket classes `[...]` — i.e. every node kind except counted repeats
     `e{n,m}` of a non-dot body and the empty alternative.  For ALL such expressions, ALL buffers and start positions, byte
     mode (ascii), any nocase / dot-all flags, exhaustive or first-match mode, forward code: every length the Lean model of
     `yr_re_exec` reports on the code produced by the Lean model of `_yr_re_emit` is a length the specification admits at that
     position (in particular a reported match of the string at an offset implies that the expression matches there).
     Both models are validated against the C functions on every generated case (real bytecode: C VM = Lean VM; emitted bytes
-    equal).  Full statement aimed at (not yet proved): also `[...]` (bitmap decoding), `e{n,m}` (REPEAT_START/END with the
-    counter stack), wide mode, backward code, the scan mode of `matches`, and the converse inclusion (completeness, which
+    equal).  Full statement aimed at (not yet proved): also `e{n,m}` (REPEAT_START/END with the counter stack), wide mode, backward code, the scan mode of `matches`, and the converse inclusion (completeness, which
     needs the executed-split-set argument for ε-loops). -/
 theorem vm_sound_partial (r : Re) (hf : Frag r) (hsz : clen r < 32000) (buf : Bytes) (start : Nat) (hst : start ≤ buf.size)
     (fl : VmFlags) (hw : fl.wide = false) (hb : fl.backwards = false) (hsc : fl.scan = false) (fuel : Nat) (m : Int) (c : List Nat)
